@@ -73,6 +73,10 @@ Verdict(o) ==
               ELSE IF ~BuilderOK(bctx0, c.adds, o.adds, 1) THEN "builder Add disagrees"
               ELSE IF ~TableOK(bctx, o.built) THEN "built table disagrees with the ID space"
               ELSE IF ~TableOK(bctx, o.builder) THEN "builder queried as a table disagrees with the ID space"
+              \* a table built after k Adds still denotes the ID space after k Adds when later Adds have happened
+              ELSE IF Len(o.snaps) # Len(c.adds) + 1 THEN "harness: snapshots"
+              ELSE IF \E k \in 0..Len(c.adds) : ~TableOK(AfterAdds(bctx0, SubSeq(c.adds, 1, k), 1), o.snaps[k + 1])
+                   THEN "a table built earlier changed when the builder was used again"
               \* the table written out and read back (catalog holding the imports) denotes the same ID space
               ELSE IF o.rt = "skip" THEN "ok"
               ELSE IF o.rt # "" THEN "the written table cannot be read back: " \o o.rt
